@@ -17,6 +17,7 @@ from __future__ import annotations
 import io
 import json
 import multiprocessing as mp
+import os
 import random
 import warnings
 
@@ -445,7 +446,7 @@ def _random_shard(args):
 
 def run(rep):
     quick = rep.tier == "quick"
-    bounds = dict(m=3, u=3, n=3, v=3, pair=1, h2=3, d=4) if quick else dict(m=4, u=4, n=3, v=4, pair=2, h2=4, d=6)
+    bounds = dict(m=3, u=3, n=3, v=3, pair=1, h2=3, d=4) if quick else dict(m=4, u=4, n=3, v=4, pair=1, h2=3, d=5)
     K = 16
     h2 = h2_available()
     sd = seeds()
@@ -462,14 +463,14 @@ def run(rep):
     invs = "\n".join("INVARIANT " + i for i in INVARIANTS)
     files = {"wire_env.json": json.dumps(envdoc)}
     # stage 1
-    r1 = tlc.run("MC_Wire", MC_CFG.format(k=1, s=0, emit="FALSE", invs=invs, **bounds), workers="auto", files=files, heap="4g",
+    r1 = tlc.run("MC_Wire", MC_CFG.format(k=1, s=0, emit="FALSE", invs=invs, **bounds), workers="auto", files=files, heap="3g",
                  env={"WIRE_ENV": "wire_env.json"}, timeout=7200)
     rep.add_tlc(f"MC_Wire {bounds} seeds={len(sd)} invariants={len(INVARIANTS)}", r1)
     if r1.violated:
         rep.violation("SpecInvariant", f"TLC: {r1.violated} violated in Wire.tla over the hostile domain\n{r1.out[-1500:]}")
         return
-    with mp.Pool(K) as pool:
-        # stage 2/3/4 on the emitted domain
+    with mp.Pool(max(1, int(os.environ.get("VERIF_JOBS") or 0) or os.cpu_count() or 4)) as pool:
+        # stage 2/3/4 on the emitted domain (K shards, whatever the size of the pool)
         jobs = [(MC_CFG.format(k=K, s=s, emit="TRUE", invs="INVARIANT EmitInv", **bounds), envdoc, s, rep.seed) for s in range(K)]
         outs = pool.map(_emit_shard, jobs)
         emitted = sum(o["emitted"] for o in outs)
@@ -504,6 +505,8 @@ def run(rep):
     # vacuity: every entry point must have seen every class with the outcome the class demands, and both
     # outcomes of the latitude class where the unchanged code can produce both.  (HTTP/2: putheader's only
     # refusals are exactly the spec's H2MustRefuse rules, so "h2/Either/refused" cannot occur and is not demanded.)
+    if rep.violations:          # a violation is reported first; vacuity only matters for a green run
+        return
     for level in ("conn", "pool", "mgr") + (("h2",) if h2 else ()):
         need = ["MustRefuse/refused", "MustBeExactlyThis/written", "Either/written"] + ([] if level == "h2" else ["Either/refused"])
         for nd in need:
